@@ -430,3 +430,26 @@ package asp
 //@   opt inline=off
 //@   callsite (scope).Assert a_zero_step_is_refused [C16]: arg_condition == (step != 0)
 //@   ensures no_zero_step [C16]: called("(scope).Assert")
+
+// ---------------------------------------------------------------------------------------------
+// Sandbox opt-out (C20: patterns and directories are path prefixes, never raw string prefixes)
+//
+// A target that opts out of the sandbox is accepted only if it is a filegroup, nothing is configured, it is in
+// the _please package, a whitelist pattern matches it (ghost `whitelisted`: the disjunction of the results of
+// Matches so far), or its package IS an experimental directory or lies UNDER one ("experimental" exempts
+// //experimental/foo, not //experimental_other).
+//@ spec underDir(dir string, pkg string) bool = pkg == dir || hasPrefix(pkg, dir + "/")
+//@ func validateSandbox
+//@   requires state != nil && target != nil && state.Config != nil && !whitelisted
+//@   opt nopanic=off
+//@   opt precall=off
+//@   callsite (BuildLabel).Matches trackresult whitelisted bool: whitelisted || result
+//@   invariant "range state.Config.Sandbox.ExcludeableTargets" none_matched: !whitelisted
+//@   invariant "range state.Config.Parse.ExperimentalDir" none_so_far: !whitelisted && (forall k int :: 0 <= k && k < idx ==> \
+//@      !underDir(state.Config.Parse.ExperimentalDir[k], target.Label.PackageName))
+//@   ensures experimental_directories_are_path_prefixes [C20]: result == nil && !target.IsFilegroup && \
+//@      len(state.Config.Sandbox.ExcludeableTargets) != 0 && \
+//@      !(!target.IsRemoteFile && target.Sandbox && (target.Test == nil || target.Test.Sandbox)) && \
+//@      target.Label.PackageName != "_please" && !whitelisted ==> \
+//@      (exists j int :: 0 <= j && j < len(state.Config.Parse.ExperimentalDir) && \
+//@         underDir(state.Config.Parse.ExperimentalDir[j], target.Label.PackageName))
